@@ -444,3 +444,41 @@ B('c05b_match_path_pairs_named_swapped', ['C05'], 'R05.h',
   (R, _MATCH, _MATCH_PAIRS.replace("            converted = dict([(conv_name, conv(groups[conv_name]))\n                              for conv_name, conv in self.converters.items()])\n",
                                    "            pairs = [(conv(groups[conv_name]), conv_name)\n                     for conv_name, conv in self.converters.items()]\n")
                           .replace("        return converted\n", "        return dict(pairs)\n")))
+
+# ---- eighth batch: rejections stand under no other condition; lookups written .get(); BINDING grammar; the two type maps ----------
+_LEAD = "    if not pattern.startswith('/'):\n"
+_DSLASH = "    if '//' in pattern:\n"
+_BIND_NAME = "                     r'(?P<name>[A-Za-z_]\\w*)'\n"
+_BIND_OP = "                     r'(?P<op>\\W*)'\n"
+_BIND_TYPE = "                     r'(?P<type>\\w+)*'\n"
+_ROUTE_COMPILE = "        _compile_path_pattern(pattern, self.slash_mode)  # checking pattern\n"
+_TYPE_MAPS = "TYPE_CONV_MAP = {}\nTYPE_PATT_MAP = {}\n"
+_TYPE_GET = ("        cur_conv = TYPE_CONV_MAP.get(type_name)\n        if cur_conv is None:\n            raise InvalidPattern('unknown type specifier %s'\n"
+             "                                 % type_name)\n        cur_patt = TYPE_PATT_MAP[type_name]\n")
+T('c05t_type_lookup_get_none_rejected', ['C05'], (R, _TYPETRY, _TYPE_GET))
+T('c05t_binding_op_explicit_class', ['C05'], (R, _BIND_OP, "                     r'(?P<op>[^\\w>]*)'\n"))
+T('c05t_binding_type_optional_group', ['C05'], (R, _BIND_TYPE, "                     r'(?P<type>\\w+)?'\n"))
+T('c05t_route_compile_reraises', ['C05'],
+  (R, _ROUTE_COMPILE, "        try:\n            _compile_path_pattern(pattern, self.slash_mode)  # checking pattern\n        except InvalidPattern:\n            raise\n"))
+T('c05t_guards_one_after_the_other', ['C05'], (R, _DSLASH, "    elif '//' in pattern:\n"))
+B('c05b_double_slash_rejected_only_in_strict', ['C05'], 'R05.c', (R, _DSLASH, "    if '//' in pattern and mode == S_STRICT:\n"))
+B('c05b_double_slash_test_nested_under_mode', ['C05'], 'R05.c',
+  (R, "    if '//' in pattern:\n        raise InvalidPattern('URL path patterns must not contain multiple'\n                             'contiguous slashes (got %r)' % pattern)\n",
+      "    if mode != S_REWRITE:\n        if '//' in pattern:\n            raise InvalidPattern('URL path patterns must not contain multiple'\n"
+      "                                 'contiguous slashes (got %r)' % pattern)\n"))
+B('c05b_leading_slash_only_for_nonempty', ['C05'], 'R05.c', (R, _LEAD, "    if pattern and not pattern.startswith('/'):\n"))
+B('c05b_route_init_swallows_invalid_pattern', ['C05'], 'R05.c',
+  (R, _ROUTE_COMPILE, "        try:\n            _compile_path_pattern(pattern, self.slash_mode)  # checking pattern\n        except InvalidPattern:\n            pass\n"))
+B('c05b_route_init_logs_value_error', ['C05'], 'R05.c',
+  (R, _ROUTE_COMPILE, "        try:\n            _compile_path_pattern(pattern, self.slash_mode)  # checking pattern\n        except ValueError as e:\n            self.pattern_error = e\n"))
+B('c05b_unknown_type_falls_back_to_text', ['C05'], 'R05.c',
+  (R, _TYPELOOK, "            cur_conv = TYPE_CONV_MAP.get(type_name, unicode)\n            cur_patt = TYPE_PATT_MAP.get(type_name, _STR_PATTERN)\n"))
+B('c05b_type_get_none_not_rejected', ['C05'], 'R05.c', (R, _TYPETRY, _TYPE_GET.replace("        if cur_conv is None:\n", "        if cur_conv is None and op:\n")))
+B('c05b_type_get_result_tested_inverted', ['C05'], 'R05.c', (R, _TYPETRY, _TYPE_GET.replace("        if cur_conv is None:\n", "        if cur_conv is not None:\n")))
+B('c05b_binding_operator_single_choice', ['C05'], 'R05.e', (R, _BIND_OP, "                     r'(?P<op>[:?])?'\n"))
+B('c05b_binding_name_without_digits', ['C05'], 'R05.e', (R, _BIND_NAME, "                     r'(?P<name>[A-Za-z_]+)'\n"))
+B('c05b_binding_groups_renamed_crossed', ['C05'], 'R05.e',
+  (R, _BIND_NAME, "                     r'(?P<type>[A-Za-z_]\\w*)'\n"), (R, _BIND_TYPE, "                     r'(?P<name>\\w+)*'\n"))
+B('c05b_binding_operator_eats_anything', ['C05'], 'R05.e', (R, _BIND_OP, "                     r'(?P<op>[^>]*?)'\n"))
+B('c05b_type_maps_one_object', ['C05'], 'R05.a', (R, _TYPE_MAPS, "TYPE_CONV_MAP = TYPE_PATT_MAP = {}\n"))
+B('c05b_type_maps_second_is_alias', ['C05'], 'R05.a', (R, _TYPE_MAPS, "TYPE_CONV_MAP = {}\nTYPE_PATT_MAP = TYPE_CONV_MAP\n"))
